@@ -198,7 +198,9 @@ def generate(rng, tier, ctx):
     V(verify_line(ser(254, e0, s[:254]), big, on=big.on[:254], off=big.off[:254]), 'drop-last-key-and-scalar-n254')
     s2 = list(s); s2[254] = 0; V(verify_line(ser(255, e0, s2), big), 's-zero-n255')
     # signatures that produced a non-verifying result at signing time
-    V(verify_line(bytes.fromhex(ctx.model([sign_line(adv_inf, 1)])[0].split(' ')[1]), adv_inf), 'ring-key-infinity')
+    # (finding F2: signing with a zero tweaked secret is refused since the fix; if a signature is still produced, verify it)
+    o_inf = ctx.model([sign_line(adv_inf, 1)])[0].split(' ')
+    if o_inf[0] == '1': V(verify_line(bytes.fromhex(o_inf[1]), adv_inf), 'ring-key-infinity')
     o = ctx.model([sign_line(canc, 0)])[0].split(' ')
     mutations(rng, canc, bytes.fromhex(o[1]), cases, 1)
 
